@@ -33,7 +33,9 @@ quadratically on two measurements.  A detector self-test (synthetic quadratic / 
 under a cryptoparser/ file name) runs first; its failure is an infrastructure error, not a verdict."""
 from __future__ import print_function
 
+import os
 import signal
+import subprocess
 import sys
 import time
 import tracemalloc
@@ -801,7 +803,24 @@ def _declared():
         ('cryptoparser.tls.postgresql:SslRequest', 'length', 4, 0xffffffff, lambda v: u(v, 4) + u(80877103, 4)),
         ('cryptoparser.tls.postgresql:Sync', 'length', 4, 0xffffffff, lambda v: b'S' + u(v, 4)),
     ]
+    # count-driven loops that are only reached behind a VALID certificate (the one input here longer than 200 bytes)
+    der = _test_certificate_der()
+    if der is not None:
+        alg = vec(4, b'x509v3-ssh-rsa')
+        d.append(('cryptoparser.ssh.key:SshX509CertificateChain', 'ocsp-response-count', 4, 0xffffffff,
+                  lambda v: alg + u(1, 4) + vec(4, der) + u(v, 4) + vec(4, b'ab')))
+        d.append(('cryptoparser.ssh.key:SshX509CertificateChain', 'certificate-count', 4, 0xffffffff,
+                  lambda v: alg + u(v, 4) + vec(4, der) + u(0, 4)))
     return d
+
+
+def _test_certificate_der():
+    try:
+        import asn1crypto.pem
+        with open(os.path.join(core.REPO, 'test', 'common', 'certs', 'snakeoil_cert.pem'), 'rb') as f:
+            return asn1crypto.pem.unarmor(f.read())[2]
+    except Exception:  # pylint: disable=broad-except
+        return None
 
 
 DECLARED_SMALL = 100     # the twin of every maximal declaration: a value just beyond the bytes present
@@ -1224,6 +1243,56 @@ def run_ticks(run, driver_ok, deep):
 # entry points of the check
 # ------------------------------------------------------------------------------------------------
 
+HISTORY_CHILD = r"""
+import sys
+sys.path.insert(0, {verif!r}); sys.path.insert(0, {repo!r})
+from harness.props import c19
+from cryptoparser.httpx import header as H
+
+registered = 'not registered'
+try:
+    # an existing field class registered a second time under an application tag: harmless, but it makes the list of
+    # registered variants non-empty, which is the state the library's own tests never reach
+    H.HttpHeaderFieldParsedVariant.register_variant_parser('x-verif-probe', H.HttpHeaderFieldServer)
+    registered = 'registered'
+except Exception as e:
+    registered = 'register failed: ' + repr(e)
+block = b''.join(b'X-Unknown-%d: value %d\r\n' % (i, i) for i in range(40)) + b'Server: x\r\nAge: 5\r\n\r\n'
+rows = []
+for _ in range(6):
+    ev = c19.measure(H.HttpHeaderFields, block)[0]
+    rows.append(ev)
+print(registered)
+print(' '.join(str(r) for r in rows))
+"""
+
+
+def run_history(run):
+    """the cost of parsing an input does not depend on what was parsed before in the same process, also after an
+    application registered a variant parser of its own (a child process: the registration is global state)"""
+    code = HISTORY_CHILD.format(verif=core.VERIF, repo=core.REPO)
+    env = dict(os.environ)
+    env['PYTHONDONTWRITEBYTECODE'] = '1'
+    try:
+        proc = subprocess.run([sys.executable, '-W', 'ignore', '-c', code], stdout=subprocess.PIPE, stderr=subprocess.PIPE,
+                              universal_newlines=True, timeout=600, env=env, check=False)
+    except subprocess.TimeoutExpired:
+        run.finding('history-work:HttpHeaderFields', 'six parses of a 1 KB header block after register_variant_parser did not finish '
+                    'in 600 s', {'kind': 'history', 'cls': 'HttpHeaderFields'})
+        return
+    run.evaluations += 6
+    lines = proc.stdout.strip().split('\n')
+    if proc.returncode != 0 or len(lines) < 2:
+        run.notes.append('history probe did not run: ' + (proc.stderr or proc.stdout)[-300:])
+        return
+    rows = [int(x) for x in lines[1].split()]
+    run.notes.append('history probe ({}): line events of six consecutive parses of the same header block: {}'.format(lines[0], rows))
+    if max(rows) > min(rows) * 1.05 + 50:
+        run.finding('history-work:HttpHeaderFields',
+                    'the same 1 KB header block costs {} line events in consecutive parses ({}): work depends on what was '
+                    'parsed before'.format(rows, lines[0]), {'kind': 'history', 'cls': 'HttpHeaderFields', 'rows': rows})
+
+
 def run(run, driver_ok=True, deep=False):  # pylint: disable=redefined-outer-name
     deep = deep or run.tier == 'thorough'
     SCALE[0] = 4 if deep else 1
@@ -1238,6 +1307,9 @@ def run(run, driver_ok=True, deep=False):  # pylint: disable=redefined-outer-nam
     t0 = time.time()
     run_declared(run)
     phases.append(('declared', time.time() - t0))
+    t0 = time.time()
+    run_history(run)
+    phases.append(('history', time.time() - t0))
     t0 = time.time()
     run_corpus(run, n_mut=3 if not deep else 12)
     phases.append(('corpus', time.time() - t0))
